@@ -222,8 +222,6 @@ def stream_srl(ctx):
             st_.count('no-branch')
         if canon_op_json(impl['op']) != canon_op_json(mo['op']):
             st_.disagree(what + ': terms differ', case, impl, mo)
-        if impl['n_ops'] != mo['n_ops']:
-            st_.disagree(what + ': number of strings differs', case, impl['n_ops'], mo['n_ops'])
     for n in range(1, N + 1):
         for i in range(n):
             for j in range(n):
@@ -239,8 +237,8 @@ def stream_srl(ctx):
                     continue
                 n_ops, Q = r
                 jQ = enc_op('qubit', Q.terms)
-                if n_ops not in (2, 4):
-                    st.violate('_seeley_richard_love returned %d strings (no branch fired)' % n_ops, case, {})
+                if n_ops == 0:
+                    st.violate('_seeley_richard_love returned no strings (no branch of the elif chain fired)', case, {})
                 b.add('_seeley_richard_love', case, {'op': jQ, 'n_ops': n_ops},
                       {'op': 'c05.srl', 'i': i, 'j': j, 'coef': to_gq(c), 'n': n},
                       oracle('bk', 'fermion', n, ['one_body_term', i, j, to_gq(c)], jQ)
